@@ -198,6 +198,9 @@ def _factory_description(spec):
         for m in spec["m"]:
             d = _factory_description(m)
             members.append(("object", m) if d is None else d)
+        if not any(isinstance(d, tuple) for d in members) and len(repr(members)) % 2 == 0:
+            # the other documented notation: an explicit compose whose members are still descriptions when its constructor sees them
+            return {"kind": "kd_compose_transform", "transforms": members}
         return members
     if k in LEAVES and k not in _MODULES and (hasattr(T, k) or hasattr(CT, k)):
         args = {a: (tuple(v) if isinstance(v, list) and a in ("scale", "sigma", "fill_color") else v) for a, v in spec.get("a", {}).items()}
@@ -207,10 +210,22 @@ def _factory_description(spec):
     return None
 
 
+def for_wrapper(spec, factory=False):
+    """what is handed to a wrapper's `transform=` argument: a transform object, or - factory - the description itself (wrappers resolve
+    kind-dicts and lists through the factory on their own)"""
+    if factory:
+        desc = _factory_description(spec)
+        if desc is not None:
+            return _materialize(desc)
+    return build(spec)
+
+
 def _materialize(desc):
     """members the factory has no notation for are fresh objects on every build; the kind-dicts are the very same objects every time"""
     if isinstance(desc, list):
         return [_materialize(d) for d in desc]
+    if isinstance(desc, dict) and desc.get("kind") == "kd_compose_transform":
+        return dict(desc, transforms=[_materialize(d) for d in desc["transforms"]])
     if isinstance(desc, tuple) and desc[0] == "object":
         return build(desc[1])
     return desc
